@@ -179,10 +179,69 @@ class OwnProfile(Profile):
         c["p_raising_iter"] = r.choice([0.0, 0.15, 0.3])
         c["p_addr_none"] = r.choice([0.1, 0.3])
         c["contents"] = True
+        # a few runs build one collection of several hundred members (strategy switches)
+        c["bulk"] = r.random() < 0.02
+        # now and then an operation OUTSIDE every statement's domain is attempted (a second node
+        # with a UUID the IR already holds): accepted -> the run ends; refused -> must be clean
+        c["p_out_of_domain"] = r.choice([0.0, 0.1, 0.3]) if getattr(self, "prop", None) in ("C03", "C04", "C05", "C06", "C13", "C16") else 0.0
         return c
+
+    def gen_out_of_domain(self, w, r):
+        from .world import PARENT_OF
+
+        m = w.m
+        by_uuid = {}
+        for l, n in m.nodes.items():
+            if n.kind in PARENT_OF:
+                by_uuid.setdefault(n.uuid, []).append(l)
+        pairs = []
+        for u, ls in sorted(by_uuid.items()):
+            if len(ls) >= 2:
+                for x in ls:
+                    if m.ir_of(x) is not None:
+                        pairs += [(x, y) for y in ls if y != x and m.ir_of(y) != m.ir_of(x)]
+        if not pairs:
+            return None
+        pref = [pq for pq in pairs if m.nodes[pq[0]].kind in ("bi", "cb", "db")]
+        if pref and r.random() < 0.7:
+            pairs = pref  # the indexed kinds
+        x, y = pairs[r.randrange(len(pairs))]
+        I = m.ir_of(x)
+        pk = PARENT_OF[m.nodes[y].kind][0]
+        ps = [I] if pk == "ir" else [l for l in m.subtree(I) if m.nodes[l].kind == pk]
+        if not ps:
+            return None
+        return {"op": "setparent", "child": y, "parent": ps[r.randrange(len(ps))], "out_of_domain": True}
+
+    def gen_bulk(self, w, r):
+        from .world import PARENT_OF
+
+        kind = r.choice(["cb", "db", "bi", "sec", "sym", "px"])
+        ps = w.m.by_kind(PARENT_OF[kind][0])
+        if not ps:
+            return None
+        P = ps[r.randrange(len(ps))]
+        w.next_id["bulk"] += 1
+        op = {"op": "bulk_new", "parent": P, "kind": kind, "count": r.randrange(257, 301), "base": "bk%d_" % w.next_id["bulk"]}
+        field = PARENT_OF[kind][1]
+        how = r.choice(["clear", "isub", "ixor", "none"])
+        if how == "clear":
+            w.queue.append({"op": "setop", "parent": P, "field": field, "method": "clear", "args": []})
+        elif how in ("isub", "ixor"):
+            w.queue.append({"op": "setop", "parent": P, "field": field, "method": how, "args": [{"wrapper": [P, field]}]})
+        return op
 
     def gen(self, w):
         r = w.rs.ops
+        if w.cfg.get("bulk") and not w.counters["probe:bulk_gen"] and len(w.m.nodes) >= 6 and not w.queue:
+            op = self.gen_bulk(w, r)
+            if op is not None and self._ready(w, op):
+                w.counters["probe:bulk_gen"] += 1
+                return op
+        if w.cfg.get("p_out_of_domain") and not w.queue and w.step * 3 >= w.cfg.get("steps", 60) * 2 and r.random() < w.cfg["p_out_of_domain"]:
+            op = self.gen_out_of_domain(w, r)
+            if op is not None and self._ready(w, op):
+                return op
         while w.queue:
             op = w.queue.pop(0)
             if op.get("op") == "heal_then":
@@ -518,6 +577,7 @@ class IndexProfile(OwnProfile):
         c["kind_weights"] = {"ir": 0.4, "mod": 0.6, "sec": 1.0, "bi": 2.0, "cb": 2.5, "db": 2.0, "px": 0.2, "sym": 0.6}
         c["p_addr_none"] = r.choice([0.1, 0.25])
         c["p_boundary"] = r.choice([0.0, 0.1, 0.2])
+        c["p_addr_negative"] = r.choice([0.0, 0.0, 0.05])
         # dense worlds (few containers, many members: incremental index replay needs more
         # members than pending events) vs. scattered ones
         if r.random() < 0.6:
